@@ -77,6 +77,41 @@ pub fn check_container<K: Kmer, V: Vmer>(name: &str, v: &V, model: &[u8], bexts:
     for (i, km) in it.iter().enumerate() {
         expect(&format!("iter_kmers item {}", i), *km, &model[i..i + k]).map_err(ctx)?;
     }
+    // the same items must come out through the iterator adaptors (nth / skip / step_by / last / count): an
+    // iterator may override these for speed, but not change what they yield
+    {
+        let all: Vec<Vec<u8>> = (0..nk).map(|i| model[i..i + k].to_vec()).collect();
+        for n_skip in [0usize, 1, 4, 5, 6, 7, nk.saturating_sub(1), nk, nk + 3] {
+            let got = v.iter_kmers::<K>().nth(n_skip).map(|x| crate::ktypes::kseq(&x));
+            if got.as_ref() != all.get(n_skip) {
+                return Err(ctx(format!("iter_kmers().nth({}) yields {:?}, expected item {} of {}", n_skip, got.map(|g| to_ascii(&g)), n_skip, nk)));
+            }
+            let mut it = v.iter_kmers::<K>();
+            let _ = it.nth(n_skip);
+            let rest = it.take(nk + 4).count();
+            if rest != nk.saturating_sub(n_skip + 1) {
+                return Err(ctx(format!("after iter_kmers().nth({}) {} items remain, expected {}", n_skip, rest, nk.saturating_sub(n_skip + 1))));
+            }
+        }
+        for step in [5usize, 6, 7, 29] {
+            let got: Vec<Vec<u8>> = v.iter_kmers::<K>().step_by(step).take(nk + 4).map(|x| crate::ktypes::kseq(&x)).collect();
+            let want: Vec<Vec<u8>> = all.iter().step_by(step).cloned().collect();
+            if got != want {
+                return Err(ctx(format!("iter_kmers().step_by({}) yields {} items, expected {}", step, got.len(), want.len())));
+            }
+        }
+        if v.iter_kmers::<K>().take(nk + 4).count() != nk || v.iter_kmers::<K>().last().map(|x| crate::ktypes::kseq(&x)).as_ref() != all.last() {
+            return Err(ctx("iter_kmers().count()/last() disagree with plain iteration".into()));
+        }
+        let bases: Vec<u8> = v.iter().take(n + 4).collect();
+        if bases != model || v.iter().skip(5).take(n + 4).count() != n.saturating_sub(5) || v.iter().nth(n).is_some() {
+            return Err(ctx("iter() / skip / nth over the bases disagree with the sequence".into()));
+        }
+        let ex_skip: Vec<(K, Exts)> = v.iter_kmer_exts::<K>(Exts::new(bexts)).skip(6).take(nk + 4).collect();
+        if ex_skip.len() != nk.saturating_sub(6) {
+            return Err(ctx(format!("iter_kmer_exts().skip(6) yields {} items, expected {}", ex_skip.len(), nk.saturating_sub(6))));
+        }
+    }
     if nk > 0 {
         expect("first_kmer", v.first_kmer::<K>(), &model[..k]).map_err(ctx)?;
         expect("last_kmer", v.last_kmer::<K>(), &model[n - k..]).map_err(ctx)?;
@@ -126,6 +161,9 @@ pub fn check<K: Kmer>(c: &Case) -> CheckResult {
     let rcs = fwd.rc();
     check_container::<K, _>("DnaStringSlice.rc()", &rcs, &rcm, c.bexts)?;
     check_container::<K, _>("DnaStringSlice.rc().rc()", &rcs.rc(), m, c.bexts)?;
+    // conversions between containers: the owned copy of a view holds the view's k-mers
+    check_container::<K, _>("DnaStringSlice.to_owned()", &fwd.to_owned(), m, c.bexts)?;
+    check_container::<K, _>("DnaStringSlice.rc().to_owned()", &rcs.to_owned(), &rcm, c.bexts)?;
     // nested slices, forward and reverse-complemented
     if n > 0 {
         let a = crate::util::idx(c.sub.0, n + 1);
